@@ -148,8 +148,18 @@ class Mon:
     def check_b(self, b):
         rec = self.rec
         want = ref.decode(b)
+        self._nb = getattr(self, "_nb", 0) + 1
+        arg = b
+        if self._nb % 3 == 0 and len(b) <= 8:
+            # what EoReader does on a hot path: one scratch bytearray per connection, refilled in place for every
+            # number and handed to decode_number again and again
+            if not hasattr(self, "_scratch"):
+                self._scratch = bytearray()
+            self._scratch[:] = b
+            arg = self._scratch
+            rec.count("decodes-through-a-reused-bytearray")
         try:
-            got = self.dec(b)
+            got = self.dec(arg)
         except Exception as ex:
             rec.violation("decode-raises", "decode_number(%s) raised %r" % (bytes(b).hex(), ex), {"bytes": bytes(b)})
             return
